@@ -64,7 +64,7 @@ func runFault(cfg Config) {
 			rnd.Shuffle(len(positions), func(a, b int) { positions[a], positions[b] = positions[b], positions[a] })
 			positions = positions[:cfg.DirectedMax]
 		}
-		if cfg.MaxFault > 0 && len(positions) > cfg.MaxFault {
+		if i >= 0 && cfg.MaxFault > 0 && len(positions) > cfg.MaxFault {
 			rnd.Shuffle(len(positions), func(a, b int) { positions[a], positions[b] = positions[b], positions[a] })
 			positions = positions[:cfg.MaxFault]
 		}
@@ -90,11 +90,10 @@ func runFault(cfg Config) {
 var bfile *BTraceFile
 
 func directedTwoExisting(r *rand.Rand, c GenCfg) Program {
-	pl := func() string { return c.Placements[r.Intn(len(c.Placements))] }
 	sl := func() int { return c.Slots[r.Intn(len(c.Slots))] }
 	p := Program{Stores: []sopenv.StoreOpts{
-		{Name: c.Prefix + "e_s0", Slot: sl(), Unique: true, Placement: pl()},
-		{Name: c.Prefix + "e_s1", Slot: sl(), Unique: true, Placement: pl()}}}
+		{Name: c.Prefix + "e_s0", Slot: sl(), Unique: true, Placement: "node"},
+		{Name: c.Prefix + "e_s1", Slot: sl(), Unique: true, Placement: "segment"}}}
 	t1 := TxnSpec{Mode: "w", New: []int{0, 1}, End: "commit"}
 	for k := 1; k <= 5; k++ {
 		t1.Ops = append(t1.Ops, OpSpec{Op: "Add", Store: 0, K: k, V: fmt.Sprintf("a%d", k)}, OpSpec{Op: "Add", Store: 1, K: k, V: fmt.Sprintf("b%d", k)})
